@@ -52,11 +52,21 @@ def gen_pair(rng, seed):
         if with_eph and rejoin:
             p.relay('eb', [{'pub': 'src', 'form': 'main', 'eph': 1}], {'proc_ms': [eb_ms]})
         for i in range(nsync):
-            p.sink(f'k{i}', [{'pub': 'src', 'form': sync_forms[i]}] + ([{'pub': 'eb', 'form': [('main', 'from_eb')], 'eph': 1}] if with_eph and rejoin and i == 0 else []),
-                   {'proc_ms': [sync_ms[i]]})
+            ins_ = [{'pub': 'src', 'form': sync_forms[i]}]
+            if with_eph and rejoin and i == 0:
+                eb_in = {'pub': 'eb', 'form': [('main', 'from_eb')], 'eph': 1}
+                ins_ = [eb_in] + ins_ if eph_first else ins_ + [eb_in]      # the ephemeral source may be listed before the synchronized one
+            p.sink(f'k{i}', ins_, {'proc_ms': [sync_ms[i]]})
+        if with_eph and ahead is not None:
+            # an ephemeral listener that is itself a joiner: its other, synchronized source has been running for a while,
+            # so the ids in its requests are AHEAD of this publisher's
+            p.source('osrc', {'nframes': 10 ** 7, 'proc_ms': [10], 'topics': ['o'], 'content': ['data']})
         if with_eph:
             for j, (lvl, beh, form) in enumerate(ephs):
-                p.sink(f'e{j}', [{'pub': 'src', 'form': form, 'eph': lvl}], dict(beh))
+                ein = [{'pub': 'src', 'form': form if form != 'star' or ahead != j else 'all', 'eph': lvl}]
+                if ahead == j:
+                    ein = ein + [{'pub': 'osrc', 'form': [('o', 'o')]}] if eph_first else [{'pub': 'osrc', 'form': [('o', 'o')]}] + ein
+                p.sink(f'e{j}', ein, dict(beh))
         # required = the synchronized consumers only
         p.by_id['src']['config']['outputs_required'] = ','.join(f'k{i}' for i in range(nsync))
         if with_eph and rejoin:
@@ -77,6 +87,7 @@ def gen_pair(rng, seed):
         nsync = nout if nout == 2 else rng.randint(1, 2)
     rejoin = rng.random() < 0.3 and not bal
     eb_ms = rng.choice([0, 2000, 4000])
+    eph_first = rng.random() < 0.5
     ephs = []
     for j in range(rng.randint(1, 4)):
         lvl = rng.choice([1, 1, 2])
@@ -85,9 +96,15 @@ def gen_pair(rng, seed):
         if kind == 'stalled':
             beh['stall'] = {'seq': rng.randint(0, 3), 'secs': 1000.0}
         ephs.append((lvl, beh, rng.choice(['all', [(topics[-1], topics[-1])], 'star']), ))
+    ahead = rng.randrange(len(ephs)) if rng.random() < 0.3 and not bal and ephs[0][0] else None
+    if ahead is not None and ephs[ahead][0] != 1:
+        ahead = None            # only a '?' listener sends requests
     kinds = []
     starts = {f'k{i}': rng.choice([0, 0, 100]) for i in range(3)}
-    starts.update({'src': rng.choice([0, 50]), 'eb': rng.choice([0, 200])})
+    starts.update({'src': rng.choice([0, 50]) if ahead is None else 2500, 'eb': rng.choice([0, 200]), 'osrc': 0})
+    if ahead is not None:
+        for i in range(3):
+            starts[f'k{i}'] = 2500 + starts[f'k{i}']
     for j in range(len(ephs)):
         starts[f'e{j}'] = rng.choice([0, 0, 300, 900])
     link = {'max_delay_ms': rng.choice([0, 10, 50, 90]), 'conn_ms': [0, 30], 'sub_ms': [0, 20], 'const': True}
@@ -119,7 +136,10 @@ def gen_eph_safety(rng, seed):
     p.relay('a', [{'pub': 'src', 'form': 'main'}], {'proc_ms': [rng.choice([0, 30])], 'rename': {'main': 'main_a'}})
     lvl = rng.choice([1, 1, 2])
     p.relay('e', [{'pub': 'src', 'form': rng.choice(['all', [('main', 'main'), ('aux', 'aux')]]), 'eph': lvl}], {'proc_ms': [rng.choice([0, 100, 400])], 'rename': {'main': 'main_e', 'aux': 'aux_e', 'x': 'x_e'}})
-    p.sink('k0', [{'pub': 'a', 'form': 'all'}, {'pub': 'e', 'form': rng.choice(['all', [('main_e', 'main_e'), ('aux_e', 'aux_e')]]), 'eph': 1}], {'proc_ms': [rng.choice([0, 50])]})
+    k0in = [{'pub': 'a', 'form': 'all'}, {'pub': 'e', 'form': rng.choice(['all', [('main_e', 'main_e'), ('aux_e', 'aux_e')]]), 'eph': 1}]
+    if rng.random() < 0.5:
+        k0in.reverse()
+    p.sink('k0', k0in, {'proc_ms': [rng.choice([0, 50])]})
     p.sink('e9', [{'pub': 'src', 'form': rng.choice(['all', 'star']), 'eph': rng.choice([1, 2])}], {'proc_ms': [rng.choice([0, 700])]})
     p.by_id['src']['config']['outputs_required'] = 'a'
     p.by_id['a']['config']['outputs_required'] = 'k0'
@@ -188,7 +208,8 @@ def judge_pair(w0, w1, s0, s1, nsync, res):
             # two balanced outputs: which branch gets which frame is decided at run time; what must not happen is that
             # the branch with the ephemeral listener is starved because of it
             res.count('balanced_split_pairs')
-            if len(h1) < 0.25 * len(h0) - 2:
+            shares_output_with_ephemerals = any(e_['cons'] == f'k{i}' and e_['out'] == 0 for e_ in t1.edges)
+            if shares_output_with_ephemerals and len(h1) < 0.25 * len(h0) - 2:
                 bad.append(('balanced-branch-starved-by-ephemeral', f'k{i} received {len(h1)} frames with an ephemeral listener on the balanced publisher, {len(h0)} without'))
             continue
         if h0 != h1:
